@@ -16,6 +16,8 @@ impl<V> HashMap<String, V> {
     #[verifier::external_body]
     pub fn is_empty(&self) -> (r: bool) ensures r == (self@.len() == 0) { unimplemented!() }
     #[verifier::external_body]
+    pub fn len(&self) -> (r: usize) ensures r == self@.len() { unimplemented!() }
+    #[verifier::external_body]
     pub fn entry(&mut self, k: String) -> (r: Entry<'_, V>)
         ensures r.key() == k@, r.before() == old(self)@,
             (r is Occupied) == old(self)@.contains_key(k@),
